@@ -39,6 +39,18 @@ class InvokeCopyForwardingBase(IRPass):
         self.base_ptr = self.analyses_cache.request_analysis(BasePtrAnalysis)
         self.mem_alias = self.analyses_cache.request_analysis(MemoryAliasAnalysis)
         self.updater = InstUpdater(self.dfg)
+        # these passes also run before MakeSSA, where a variable (e.g. the
+        # result of a ternary) can be defined in several blocks; the DFG
+        # records only one of the definitions, so such a variable must not
+        # be resolved through "its" producing instruction.
+        seen: set[IRVariable] = set()
+        self._multi_def: set[IRVariable] = set()
+        for bb in self.function.get_basic_blocks():
+            for inst in bb.instructions:
+                for out in inst.get_outputs():
+                    if out in seen:
+                        self._multi_def.add(out)
+                    seen.add(out)
         self.copy_forwarding = CopyForwardingPolicy(
             self.function, self.dfg, self.base_ptr, self.mem_alias
         )
@@ -154,6 +166,8 @@ class InvokeCopyForwardingBase(IRPass):
 
     def _assign_root_var(self, var: IRVariable) -> IRVariable:
         while True:
+            if var in self._multi_def:
+                return var
             inst = self.dfg.get_producing_instruction(var)
             if inst is None or inst.opcode != "assign":
                 return var
